@@ -505,7 +505,7 @@ def main(ctx):
     def one_remdup(case, rec):
         dtv, vals, dtf, flags = case
         arr = np.array(vals, dtype=dtv)
-        fl = np.array(flags, dtype=dtf)
+        fl = np.array(flags, dtype={"i8big": "i8", "u8big": "u8"}.get(dtf, dtf))
         v = arr.tolist()
         f = fl.tolist()
         distinct = distinct_values(v)
@@ -560,6 +560,10 @@ def main(ctx):
         "f8": [0.5, 2.0, float("-inf"), float("inf")],
         "u1": [0, 1, 255],
         "?": [False, True],
+        # 64-bit flags that differ by less than the spacing of a double (time stamps in nanoseconds, packed bit masks):
+        # a comparison made through float64 cannot tell them apart
+        "i8big": [2 ** 53, 2 ** 53 + 1, 2 ** 62 + 1, -(2 ** 53) - 1],
+        "u8big": [2 ** 63 + 1, 2 ** 63 + 2, 2 ** 64 - 1, 2 ** 53 + 1],
     }
     LR = ctx.pick(4, 5)
     units_r = []
@@ -698,6 +702,49 @@ def main(ctx):
             return rec.fail(case, "rem_dup on %d elements: %d indices for %d distinct values, or a kept element without the largest flag"
                             % (n2, idx.size, len(best)))
         rec.ok(case, outcome="rem_dup:%s" % dt, nontrivial=True, calls=1)
+
+    # ------------------------------------------------------------ arguments that are views of ONE buffer
+    # match(a, b) / rem_dup(values, flags) where both arguments are overlapping views of the same memory (the same
+    # object twice, a prefix and a strided view that start at the same element, shifted windows, a reversed view):
+    # the answer is that of independent copies (brute-force pairs for match)
+    def one_alias(case, rec):
+        what, vname, dt, presorted = case
+        base = np.array([5, 9, 1, 7, 3, 11, 4, 8, 0, 6, 2, 10], dtype=dt) if dt[0] != "S" else np.array(
+            [b"e", b"i", b"a", b"g", b"c", b"k", b"d", b"h", b"", b"f", b"b", b"j"], dtype=dt)
+        if presorted:
+            base = np.sort(base)
+        views = {"same-object": (base, base), "prefix-and-strided": (base[:6], base[::2]), "shifted-windows": (base[1:9], base[:8]),
+                 "reversed": (base, base[::-1]), "overlap": (base[:8], base[4:]), "strided-and-prefix": (base[::2], base[:6]),
+                 "negative-strided": (base[:6], base[::-2])}
+        a, b = views[vname]
+        keep = base.copy()
+        try:
+            if what == "match":
+                m1, m2 = nu.match(a, b, presorted=presorted)
+                av, bv = a.tolist(), b.tolist()
+                pos = {v: i for i, v in enumerate(av)}
+                e2 = [j for j, v in enumerate(bv) if v in pos]
+                e1 = [pos[bv[j]] for j in e2]
+                if np.asarray(m1).tolist() != e1 or np.asarray(m2).tolist() != e2:
+                    return rec.fail(case, "match(%s views of one buffer): pairs %r / %r, expected %r / %r" % (vname, np.asarray(m1).tolist(), np.asarray(m2).tolist(), e1, e2))
+            else:
+                fl = b if b.dtype.kind in "iu" and b.size == a.size else np.arange(a.size)
+                idx = np.asarray(nu.rem_dup(a, fl)).reshape(-1)
+                ref = np.asarray(nu.rem_dup(a.copy(), np.array(fl).copy())).reshape(-1)
+                if sorted(idx.tolist()) != sorted(ref.tolist()):
+                    return rec.fail(case, "rem_dup(%s views of one buffer) keeps %r, on independent copies %r" % (vname, sorted(idx.tolist()), sorted(ref.tolist())))
+        except Exception as e:
+            return rec.fail(case, "%s on %s views of one buffer raised %s: %s" % (what, vname, type(e).__name__, e))
+        if base.tobytes() != keep.tobytes():
+            return rec.fail(case, "%s on %s views modified the buffer" % (what, vname))
+        rec.ok(case, outcome="alias:%s:%s" % (what, vname), nontrivial=True, calls=1)
+
+    alunits = [(w, v, dt, ps) for w in ("match", "rem_dup") for v in ("same-object", "prefix-and-strided", "shifted-windows", "reversed", "overlap",
+                                                                       "strided-and-prefix", "negative-strided")
+               for dt in ("i8", "i4", "f8", "S1") for ps in ((False, True) if w == "match" else (False,))
+               if not (ps and v in ("reversed", "negative-strided", "shifted-windows"))]
+    ctx.lattice("aliased-arguments", alunits, one_alias, bounds=dict(views=["same-object", "prefix-and-strided", "shifted-windows", "reversed", "overlap",
+                                                                            "strided-and-prefix", "negative-strided"], dtypes=["i8", "i4", "f8", "S1"]))
 
     # millions of elements in runs of equal values whose length (7, then 11; the first run shorter) is coprime to every
     # plausible block size: in sorted order a run straddles EVERY position that could be a block boundary
